@@ -16,6 +16,7 @@ import ChessVerif.Proofs.SearchDemo
 import ChessVerif.Proofs.SearchScoreDemo
 import ChessVerif.Proofs.SearchFinalAbort
 import ChessVerif.Proofs.SearchFinalFree
+import ChessVerif.Proofs.SearchNmpFloor
 
 namespace ChessVerif.Props.C06
 open ChessVerif Search
@@ -149,41 +150,55 @@ theorem eval_range (c : Comp σ π) (b : Board) : (-10000 : Int) + 64 < evaluate
     mate score never claims a mate earlier than the node's own ply — what the table's re-basing of
     mate scores needs), and `alphaBeta` keeps the table
     invariant on EVERY path, aborted or not (every store is behind an abort check) — for every fuel,
-    depth, node type, ply `0..63`, workable window and state with sound tables. -/
+    depth, node type, ply `0..63`, workable window and state with sound tables, as long as the ghost
+    flag `St.nmpOut` is down when it returns (the mate branch of null-move pruning did not hand out a
+    `beta` below `-Inf + ply`; for components with `NmpFloor` it never does: `alphaBeta_nf`). -/
 theorem alphaBeta_value_in_range (c : Comp σ π) (L : Limits) {Good : Board → Prop} {TTok : σ → Prop} {μ : Board → Nat}
     (hl : Laws c Good) (sl : ScoreLaws c Good TTok μ) (fuel : Nat) (a b : Score) (d ply : Int) (nt : NodeType) (s : St σ)
-    (hg : Good s.board) (h0 : 0 ≤ ply) (h1 : ply ≤ 63) (hw : WinOK a b) (htt : TTok s.ps) :
+    (hg : Good s.board) (h0 : 0 ≤ ply) (h1 : ply ≤ 63) (hw : WinOK a b) (htt : TTok s.ps)
+    (hA : (alphaBeta c L fuel a b d ply nt s).2.nmpOut = false) :
     TTok (alphaBeta c L fuel a b d ply nt s).2.ps ∧
       ((alphaBeta c L fuel a b d ply nt s).2.aborted = false →
         InR (alphaBeta c L fuel a b d ply nt s).1 ∧ RelP ply (alphaBeta c L fuel a b d ply nt s).1) :=
-  let h := alphaBeta_range c L hl sl fuel a b d ply nt s hg h0 h1 hw htt
-  ⟨h.1, fun hna => ⟨(h.2 hna).inR h0, h.2 hna⟩⟩
+  let h := alphaBeta_range c L hl sl fuel a b d ply nt s hg h0 h1 (fun _ => hw) ⟨sl.tt_ok _ htt, fun _ => htt⟩
+  ⟨h.1.2 hA, fun hna => ⟨(h.2 hna hA).inR h0, h.2 hna hA⟩⟩
 
 /-- the same for `quiescence` (plies that cannot wrap the int8 counter). -/
 theorem quiescence_value_in_range (c : Comp σ π) (L : Limits) {Good : Board → Prop} {TTok : σ → Prop} {μ : Board → Nat}
     (hl : Laws c Good) (sl : ScoreLaws c Good TTok μ) (fuel : Nat) (a b : Score) (ply : Int) (s : St σ)
-    (hg : Good s.board) (h0 : 0 ≤ ply) (h1 : ply + (μ s.board : Int) ≤ 111) (hw : WinOK a b) (htt : TTok s.ps) :
+    (hg : Good s.board) (h0 : 0 ≤ ply) (h1 : ply + (μ s.board : Int) ≤ 111) (hw : WinOK a b) (htt : TTok s.ps)
+    (hA : (quiescence c L fuel a b ply s).2.nmpOut = false) :
     TTok (quiescence c L fuel a b ply s).2.ps ∧
       ((quiescence c L fuel a b ply s).2.aborted = false →
         InR (quiescence c L fuel a b ply s).1 ∧ RelP ply (quiescence c L fuel a b ply s).1) :=
-  let h := quiescence_range c L hl sl fuel a b ply s hg h0 h1 hw htt
-  ⟨h.1, fun hna => ⟨(h.2 hna).inR h0, h.2 hna⟩⟩
+  let h := quiescence_range c L hl sl fuel a b ply s hg h0 h1 (fun _ => hw) ⟨sl.tt_ok _ htt, fun _ => htt⟩
+  ⟨h.1.2 hA, fun hna => ⟨(h.2 hna hA).inR h0, h.2 hna hA⟩⟩
+
+omit [PsInv σ] in
+/-- For components whose null-move test is guarded against the mate band (`NmpFloor`: the guard reverse
+    futility pruning has in search.go) the ghost flag `St.nmpOut` is down after every `go`, so the
+    hypothesis `nmpOut = false` of the theorems below is discharged (Proofs/SearchNmpFloor.lean). -/
+theorem go_nmpOut_of_floor (c : Comp σ π) (hf : NmpFloor c) (L : Limits) (clock : Clock) (fuel : Nat) (e : Engine σ)
+    (b : Board) (nodes0 : Int) : (go c L clock fuel e b nodes0).st.nmpOut = false :=
+  go_nmpOut_false c hf L clock fuel e b nodes0
 
 /-- `TTok` is an invariant of engine states: it survives every `go` — completed, stopped at any
     poll, out of budget at any node, out of fuel (this is the content of the D8 repair). -/
 theorem go_keeps_table_invariant (c : Comp σ π) (L : Limits) (clock : Clock) {Good : Board → Prop} {TTok : σ → Prop}
     {μ : Board → Nat} (hl : Laws c Good) (sl : ScoreLaws c Good TTok μ) (fuel : Nat) (e : Engine σ) (b : Board)
-    (hg : Good b) (nodes0 : Int) (hd : 1 ≤ L.depth) (htt : TTok e.ps) (hsane : GoSane c L clock fuel e b nodes0) :
+    (hg : Good b) (nodes0 : Int) (hd : 1 ≤ L.depth) (htt : TTok e.ps) (hsane : GoSane c L clock fuel e b nodes0)
+    (hA : (go c L clock fuel e b nodes0).st.nmpOut = false) :
     TTok (go c L clock fuel e b nodes0).engine.ps :=
-  (go_score c L clock hl sl fuel e b hg nodes0 hd htt hsane).1
+  (go_score c L clock hl sl fuel e b hg nodes0 hd htt hsane hA).1
 
 /-- The null move is returned only if the root is final — for every depth limit ≥ 1, every limit
     combination, every abort point, and with NO hypothesis on fuel or on the ghost flag. -/
 theorem go_null_only_if_final (c : Comp σ π) (L : Limits) (clock : Clock) {Good : Board → Prop} {TTok : σ → Prop}
     {μ : Board → Nat} (hl : Laws c Good) (sl : ScoreLaws c Good TTok μ) (fuel : Nat) (e : Engine σ) (b : Board)
     (hg : Good b) (nodes0 : Int) (hd : 1 ≤ L.depth) (htt : TTok e.ps) (hsane : GoSane c L clock fuel e b nodes0)
+    (hA : (go c L clock fuel e b nodes0).st.nmpOut = false)
     (hnull : (go c L clock fuel e b nodes0).move = 0) : Final c.keys b :=
-  (go_score c L clock hl sl fuel e b hg nodes0 hd htt hsane).2.1 hnull
+  (go_score c L clock hl sl fuel e b hg nodes0 hd htt hsane hA).2.1 hnull
 
 /-- The same two statements WITHOUT `GoSane`, for parameter sets with `WindowSize = 44` whose reverse
     futility margin cannot wrap at depths ≤ 2 (`AspLaws`; Proofs/SearchScoreFree.lean): un-aborted
@@ -194,15 +209,17 @@ theorem go_null_only_if_final (c : Comp σ π) (L : Limits) (clock : Clock) {Goo
     `beta > 9069` leave it, and only the stability of the search excludes that sequence.) -/
 theorem go_keeps_table_invariant_free (c : Comp σ π) (L : Limits) (clock : Clock) {Good : Board → Prop} {TTok : σ → Prop}
     {μ : Board → Nat} (hl : Laws c Good) (sl : ScoreLaws c Good TTok μ) (al : AspLaws c) (fuel : Nat) (e : Engine σ)
-    (b : Board) (hg : Good b) (nodes0 : Int) (hd : 1 ≤ L.depth) (htt : TTok e.ps) :
+    (b : Board) (hg : Good b) (nodes0 : Int) (hd : 1 ≤ L.depth) (htt : TTok e.ps)
+    (hA : (go c L clock fuel e b nodes0).st.nmpOut = false) :
     TTok (go c L clock fuel e b nodes0).engine.ps :=
-  (go_free c L clock hl sl al fuel e b hg nodes0 hd htt).1
+  (go_free c L clock hl sl al fuel e b hg nodes0 hd htt hA).1
 
 theorem go_null_only_if_final_free (c : Comp σ π) (L : Limits) (clock : Clock) {Good : Board → Prop} {TTok : σ → Prop}
     {μ : Board → Nat} (hl : Laws c Good) (sl : ScoreLaws c Good TTok μ) (al : AspLaws c) (fuel : Nat) (e : Engine σ)
     (b : Board) (hg : Good b) (nodes0 : Int) (hd : 1 ≤ L.depth) (htt : TTok e.ps)
+    (hA : (go c L clock fuel e b nodes0).st.nmpOut = false)
     (hnull : (go c L clock fuel e b nodes0).move = 0) : Final c.keys b :=
-  (go_free c L clock hl sl al fuel e b hg nodes0 hd htt).2 hnull
+  (go_free c L clock hl sl al fuel e b hg nodes0 hd htt hA).2 hnull
 
 /-- … and the final-score clause without `GoSane`: on a final root every root search returns the final
     value or fails high, so from iteration 2 on the aspiration windows are `(fs-44, fs+44·factor)` with
@@ -210,22 +227,24 @@ theorem go_null_only_if_final_free (c : Comp σ π) (L : Limits) (clock : Clock)
 theorem go_final_score_free (c : Comp σ π) (L : Limits) (clock : Clock) {Good : Board → Prop} {TTok : σ → Prop}
     {μ : Board → Nat} (hl : Laws c Good) (sl : ScoreLaws c Good TTok μ) (al : AspLaws c) (fuel : Nat) (e : Engine σ)
     (b : Board) (hg : Good b) (nodes0 : Int) (hd : 1 ≤ L.depth) (htt : TTok e.ps)
+    (hA : (go c L clock fuel e b nodes0).st.nmpOut = false)
     (hfin : Final c.keys b) (hdone : (go c L clock fuel e b nodes0).st.aborted = false) :
     (go c L clock fuel e b nodes0).move = 0 ∧
       ((go c L clock fuel e b nodes0).score = 0 ∨
         (b.inCheck b.stm = true ∧ MoveGen.playable c.keys b = [] ∧ (go c L clock fuel e b nodes0).score = -Inf)) :=
-  go_final_free c L clock hl sl al fuel e b hg nodes0 hd htt hfin hdone
+  go_final_free c L clock hl sl al fuel e b hg nodes0 hd htt hfin hA hdone
 
 /-- A search that runs to completion (the abort flag is never raised) on a final root returns the
     null move with score 0, or with the mated score `-Inf` for a checkmated root. -/
 theorem go_final_score (c : Comp σ π) (L : Limits) (clock : Clock) {Good : Board → Prop} {TTok : σ → Prop}
     {μ : Board → Nat} (hl : Laws c Good) (sl : ScoreLaws c Good TTok μ) (fuel : Nat) (e : Engine σ) (b : Board)
     (hg : Good b) (nodes0 : Int) (hd : 1 ≤ L.depth) (htt : TTok e.ps) (hsane : GoSane c L clock fuel e b nodes0)
+    (hA : (go c L clock fuel e b nodes0).st.nmpOut = false)
     (hfin : Final c.keys b) (hdone : (go c L clock fuel e b nodes0).st.aborted = false) :
     (go c L clock fuel e b nodes0).move = 0 ∧
       ((go c L clock fuel e b nodes0).score = 0 ∨
         (b.inCheck b.stm = true ∧ MoveGen.playable c.keys b = [] ∧ (go c L clock fuel e b nodes0).score = -Inf)) :=
-  (go_score c L clock hl sl fuel e b hg nodes0 hd htt hsane).2.2 hfin hdone
+  (go_score c L clock hl sl fuel e b hg nodes0 hd htt hsane hA).2.2 hfin hdone
 
 /-- The same with "runs to completion" spelled as in `C06_full_final_score`: no stop channel, no hard
     budget, fuel not exhausted (then the abort flag cannot have been raised: `go_aborted_fuel`).
@@ -235,12 +254,13 @@ theorem go_final_score (c : Comp σ π) (L : Limits) (clock : Clock) {Good : Boa
 theorem go_final_score_completed (c : Comp σ π) (L : Limits) (clock : Clock) {Good : Board → Prop} {TTok : σ → Prop}
     {μ : Board → Nat} (hl : Laws c Good) (sl : ScoreLaws c Good TTok μ) (fuel : Nat) (e : Engine σ) (b : Board)
     (hg : Good b) (nodes0 : Int) (hd : 1 ≤ L.depth) (htt : TTok e.ps) (hsane : GoSane c L clock fuel e b nodes0)
+    (hA : (go c L clock fuel e b nodes0).st.nmpOut = false)
     (hstop : L.stop = none) (hnodes : L.nodes = -1) (hfin : Final c.keys b)
     (hfuel : (go c L clock fuel e b nodes0).st.fuelOut = false) :
     (go c L clock fuel e b nodes0).move = 0 ∧
       ((go c L clock fuel e b nodes0).score = 0 ∨
         (b.inCheck b.stm = true ∧ MoveGen.playable c.keys b = [] ∧ (go c L clock fuel e b nodes0).score = -Inf)) := by
-  refine go_final_score c L clock hl sl fuel e b hg nodes0 hd htt hsane hfin ?_
+  refine go_final_score c L clock hl sl fuel e b hg nodes0 hd htt hsane hA hfin ?_
   cases hab : (go c L clock fuel e b nodes0).st.aborted
   · rfl
   · rw [go_aborted_fuel c L clock fuel e b nodes0 hstop hnodes hab] at hfuel; cases hfuel
@@ -254,13 +274,13 @@ example (K : Keys) (L : Limits) (clock : Clock) (e : Engine Unit) :
 example (K : Keys) (L : Limits) (clock : Clock) (e : Engine Unit) (hd : 1 ≤ L.depth)
     (h : (go (demoComp K) L clock 0 e Board.empty).move = 0) : Final K Board.empty :=
   go_null_only_if_final (demoComp K) L clock (demo_laws K) (demo_scoreLaws K) 0 e Board.empty noMen_empty 0 hd trivial
-    (demo_goSane K L clock e Board.empty) h
+    (demo_goSane K L clock e Board.empty) (go_nmpOut_of_floor _ (demo_nmpFloor K) _ _ _ _ _ _) h
 
 /-- non-vacuity of the `GoSane`-free form: `demoComp` meets `AspLaws` too -/
 example (K : Keys) (L : Limits) (clock : Clock) (fuel : Nat) (e : Engine Unit) (hd : 1 ≤ L.depth)
     (h : (go (demoComp K) L clock fuel e Board.empty).move = 0) : Final K Board.empty :=
   go_null_only_if_final_free (demoComp K) L clock (demo_laws K) (demo_scoreLaws K) (demo_aspLaws K) fuel e Board.empty
-    noMen_empty 0 hd trivial h
+    noMen_empty 0 hd trivial (go_nmpOut_of_floor _ (demo_nmpFloor K) _ _ _ _ _ _) h
 
 /-- the windows of the first searches are root windows: `(-Inf-1, Inf+1)` and `(s-W, s+W)` -/
 example : RootWin (-Inf - 1) (Inf + 1) ∧ RootWin (wrapS16 (-9990 - 44)) (wrapS16 (-9990 + 44)) := by decide
